@@ -48,7 +48,8 @@ def render(tt):
 
 
 ALPHABET = ['x', 'unsafe', 'true', 'false', '1', '-1', '1.5', '""', '"x"', "'c'", '=', ',', '::', '*', '-', "'a", '<', '>',
-            ['(', [], ')'], ['[', [], ']'], ['{', [], '}'], 'name', 'Debug']
+            ['(', [], ')'], ['[', [], ']'], ['{', [], '}'], 'name', 'Debug',
+            '9223372036854775807', '9223372036854775808', '"-9223372036854775807"', '"-9223372036854775808"']
 
 
 def mutations(tt, alphabet):
@@ -247,7 +248,7 @@ def check(v, tier):
     guard(outcomes.get('educe_diag', 0) > 1000, 'too few inputs were refused with a diagnostic')
     guard(outcomes.get('out_of_domain', 0) == 0, 'some inputs were rejected by the compiler\'s own parser before any macro ran')
     return v.finish('seeds: every documented attribute form at type / variant / field / union-field level on a matching shape; every single token-tree mutation of the argument list at every '
-                    'nesting level: delete, duplicate, swap adjacent, replace by / insert each element of a 23-token alphabet (identifiers, unsafe, booleans, numbers, strings, char, = , :: * - '
+                    'nesting level: delete, duplicate, swap adjacent, replace by / insert each element of a 27-token alphabet (identifiers, unsafe, booleans, numbers incl. the isize boundaries, strings, char, = , :: * - '
                     'lifetime < > and empty groups in each delimiter), re-delimit or unwrap every group; attribute forms (#[educe], #[educe = lit], empty and malformed lists, raw identifiers, '
                     'out-of-range numbers) at six host positions; nesting depths 1..256 (thorough ..2048) of ten recursive constructs, types with up to 256 fields / variants; all through '
                     'the real macro inside rustc (one expansion round; a sentinel request at the end of every shard proves expansion reached it); thorough: pairs of mutations in-process, every '
